@@ -125,3 +125,11 @@ _p('C17', secs=(30, 480), runs=(100000, 10000000), mix=(4, 8),
     real=_SESS_REAL, stub=_SESS_STUB, assumptions=_SESS_ASSUME,
     level_text='seeded exploration; for every new application message on the wire get(seq) must return exactly the transmitted bytes, administrative numbers have no stored copy, nothing is stored above the highest number sent',
     level_note='trusted: harness codec (splits a batch written in one sendBytes into messages), persister get() (judged by C26)')
+
+_p('C18', secs=(30, 480), runs=(100000, 10000000), mix=(4, 8),
+    title='Resend requests are answered with a complete, faithful replay',
+    technique='deterministic simulation: real session + persister (memory, file on simfs, or none) against a scripted peer; histories mixing stored application messages with unstored administrative numbers, then ResendRequests with seeded ranges; the answer on the wire is compared with the harness record of what was sent',
+    rule='one evaluation = one seeded history of 1-12 (thorough 1-24) ops (application sends, batches, TestRequests answered by heartbeats, silences producing timer heartbeats) followed by 1-3 ResendRequests whose begin/end are drawn from {1, first stored, inside a gap, last stored, latest, random, 0 = to the latest} (5% invalid ranges), each followed by an application send; non-trivial = at least one request and 3 sent messages; distinct = distinct event-log hash',
+    real=_SESS_REAL + ['Session::handle_resend_request / retrans_callback', 'Persister::get(from,to,callback) of both persisters'], stub=_SESS_STUB, assumptions=_SESS_ASSUME,
+    level_text='seeded exploration of stores x ranges; oracle: ascending order, every stored application message of the range replayed exactly once with PossDupFlag, original number, OrigSendingTime and body, every gap covered by a GapFill numbered with the first number of the gap, continuation from the last NewSeqNo announced, invalid ranges rejected',
+    level_note='trusted: harness record of sent messages (parsed from the wire); a NewSeqNo larger than "the number after the gap" is tolerated only if it skips no stored message and does not exceed the session\'s next number; requests starting beyond the highest number sent are not generated')
